@@ -16,6 +16,9 @@ LOSS_SCRIPTS = {
     "never": [11.0, 12.0, 13.0, 14.0, 15.0, 16.0, 17.0, 18.0, 19.0, 20.0],
     "mixed": [8.0, 9.0, 6.0, 7.0, 6.0, 3.0, 4.0, 2.0, 2.0, 1.0],
     "to_zero": [4.0, 0.0, 3.0, 0.0, 1.0, 2.0, 0.0, 5.0, 1.0, 0.0],
+    # batches whose every simulation diverged (best loss of the batch +inf / NaN): no improvement, reward 0, the exchange goes on
+    "with_inf": [8.0, float("inf"), 6.0, float("inf"), float("inf"), 3.0, float("inf"), 2.0, 2.0, float("inf")],
+    "with_nan": [8.0, float("nan"), 6.0, float("nan"), float("nan"), 3.0, float("nan"), 2.0, 2.0, float("nan")],
 }
 
 
@@ -353,9 +356,17 @@ def run_calibrator(cfg, prefix, mode="sync", horizon=40000, sleep_at=None):
         env = MABCalibrationEnv(n)
         agent = make_agent(cfg["agent"], n, log)
         sched = RLScheduler(samplers, agent=agent, env=env)
-        models.reset()
-        cal = Calibrator(loss_function=C.make_loss("minkowski"), real_data=C.real_data({}), model=models.gauss2, parameters_bounds=[[0.0, 0.0], [1.0, 1.0]],
-                         parameters_precision=[0.05, 0.05], ensemble_size=1, scheduler=sched, verbose=False, random_state=cfg.get("seed", 0), n_jobs=1)
+        if cfg.get("loss_script"):
+            # losses scripted through the model (C14's device) with a convergence precision: a session may end through the early stop
+            from black_it.loss_functions.minkowski import MinkowskiLoss
+
+            models.reset(script=cfg["loss_script"])
+            cal = Calibrator(loss_function=MinkowskiLoss(p=1), real_data=np.zeros((1, 1)), model=models.model_script, parameters_bounds=[[0.0], [1.0]], parameters_precision=[0.001],
+                             ensemble_size=1, scheduler=sched, sim_length=1, convergence_precision=cfg.get("convergence_precision"), verbose=False, random_state=cfg.get("seed", 0), n_jobs=1)
+        else:
+            models.reset()
+            cal = Calibrator(loss_function=C.make_loss("minkowski"), real_data=C.real_data({}), model=models.gauss2, parameters_bounds=[[0.0, 0.0], [1.0, 1.0]],
+                             parameters_precision=[0.05, 0.05], ensemble_size=1, scheduler=sched, verbose=False, random_state=cfg.get("seed", 0), n_jobs=1)
     rec = C.Recorder()
 
     def go():
